@@ -88,11 +88,11 @@ def gen_cases(rng, n):
         L = rng.choice([2, 3, 10, 25, 30, 40, 100]) if pl != 7 else rng.choice([3, 20, 30])
         p = geo.base_params(econ, eu, pl, L=L, n=rng.choice([1, 2, 4]))
         p['Construction Years'] = rng.choice([1, 1, 2, 3, 7, 14])
-        p['Fixed Internal Rate'] = rng.choice([0.0, 3.5, 6.25, 10, 30])
+        p['Fixed Internal Rate'] = rng.choice([0.0, 3.5, 6.25, 10, 30, 99.5, 100])      # both ends of the accepted range included
         p['Discount Initial Year Cashflow'] = rng.choice([True, False])
         if rng.random() < 0.35:
             del p['Fixed Internal Rate']          # only the discount rate is stated: every NPV of the run is at that rate
-            p['Discount Rate'] = rng.choice([0.03, 0.05, 0.12])
+            p['Discount Rate'] = rng.choice([0.03, 0.05, 0.12, 0.0, 1.0])
         p['Drawdown Parameter'] = rng.choice([0.0, 0.005, 0.02])
         for prod, a_, b_ in (('Electricity', 0.055, 0.15), ('Heat', 0.02, 0.08), ('Cooling', 0.03, 0.1)):
             if rng.random() < 0.7:
@@ -131,7 +131,19 @@ def gen_cases(rng, n):
         if rng.random() < 0.5:
             geo.diversify(rng, p)
         cases.append((f'grid:{econ}/{eu}/{pl}/L{L}cy{p["Construction Years"]}#{k}', p))
-    return cases
+    return exact_zero_cases() + cases
+
+
+def exact_zero_cases():
+    """cash flows made of exactly representable amounts whose cumulative series is exactly 0.0 at a year end (… -10, 0, 10 …): the
+    year-end zero is "not yet positive", the payback lies in the following year — a strict / non-strict comparison slip shows only here"""
+    out = []
+    for cy, capex, fee, L in ((1, 40, -10, 10), (2, 40, -10, 12), (1, 30, -5, 20), (1, 64, -16, 8)):
+        p = geo.base_params(1, 1, 1, L=L, n=1)
+        p.update({'Construction Years': cy, 'Total Capital Cost': capex, 'Total O&M Cost': 0, 'Annual License Fees Etc': fee,
+                  'Starting Electricity Sale Price': 0, 'Ending Electricity Sale Price': 0, 'Fixed Internal Rate': 5})
+        out.append((f'exact-zero:cy{cy}/capex{capex}/fee{fee}', p))
+    return out
 
 
 def is_turn(cum, j):
